@@ -90,6 +90,27 @@ def run(ctx):
     for src in WITH_SHAPES:
         compare_shape(ctx, program, wpol, "R02.3", src, "exec", result="flow", ref_opts=wopts)
 
+    ctx.rule("R02.6", "`with` on an object that lacks the context-manager protocol raises TypeError (Python >= 3.11) before anything is entered - an `except TypeError` "
+             "around it matches; the interpreter's own attribute lookup must not leak as AttributeError", floor=2)
+    from ..flow import FlowPolicy, exits, run_flow
+    from ..absint import ExcV
+    wi = "eval.py::AstEval.with_item"
+    for missing in ("__enter__", "__exit__"):
+        def getattr_(i, n, a, k, c, o, missing=missing):
+            if len(a) > 1 and a[1] == Const(missing):
+                o.add("raise", c.set("$exc", ExcV("AttributeError", f"type object has no attribute {missing}")))
+                return []
+            return [(c, Sym(("method", a[1].v if len(a) > 1 and isinstance(a[1], Const) else "?")))]
+
+        polw = FlowPolicy(program, may_raise_all=False, cancel=False, events=["self.call_func"],
+                          summaries={"getattr": getattr_, "self.aeval": lambda i, n, a, k, c, o: [(c, ObjV("five", "int"))], "type": lambda i, n, a, k, c, o: [(c, Sym(("type of manager",)))]})
+        node = to_nodev(ast.parse("with a0:\n    s0").body[0])
+        outw = run_flow(program, wi, polw, args={"self": ObjV("self", "AstEval"), "arg": node, "item_idx": Const(0), "enter_attr": Const("__enter__"), "exit_attr": Const("__exit__")})
+        got = sorted({(k, getattr(c.env.get("$exc"), "cls", None), sum(1 for e in c.trace if e[0] == "call")) for k, c, d in exits(outw)})
+        ctx.check(got == [("raise", "TypeError", 0)], "R02.6", wi, f"manager without {missing}",
+                  msg=f"`with obj:` where type(obj) has no {missing}: (exit, exception, calls made) = {got}, Python raises TypeError before entering anything", key=f"with non-manager {missing}",
+                  node=program.func(wi), rel="eval.py")
+
     # R02.4 statement-list owners: module / class body / function body --------------------------------------
     ctx.rule("R02.4", "module and class bodies reject stray markers with SyntaxError after executing nothing further; "
              "function bodies stop at the first Return and return its value, None at the end", floor=6)
